@@ -236,7 +236,9 @@ class ViralGen:
     def step(self, nodes, node, last):
         r = self.r
         X, dsx = node.name, '(ds %s)' % node.name
-        choices = ['assign', 'filter', 'filter', 'calc', 'rename', 'setop', 'setop']
+        choices = ['assign', 'filter', 'filter', 'calc', 'rename']
+        if node.ids:            # set operators match datapoints by identifiers (datasets without identifiers: C05's matter)
+            choices += ['setop', 'setop']
         if node.meas:
             choices += ['keep']
         if len(node.meas) > 1:
@@ -252,7 +254,7 @@ class ViralGen:
             if len(node.meas) == 1 and last:
                 choices += ['cmp', 'bincmp']
             if last and node.viral:
-                choices += ['analytic', 'analytic', 'join', 'join']
+                choices += ['analytic', 'analytic', 'analytic', 'join', 'join', 'join']
         if self.allow:
             choices = [c for c in choices if c in self.allow]
             if not choices:
@@ -369,7 +371,7 @@ class ViralGen:
             # op(DS over (partition by …)): the model answers identifiers + viral attributes only (measures: C06)
             pick = r.sample(node.ids, r.randint(1, len(node.ids)))
             pick = [i for i in node.ids if i in pick]
-            op = r.choice(['sum', 'min', 'max', 'avg', 'count'])
+            op = r.choice(['sum', 'min', 'max', 'avg'])      # analytic count over several measures: structure/data mismatch (C06's matter)
             return ('%s(%s over (partition by %s))' % (op, X, ', '.join(i for i, _ in pick)),
                     '(vpart %s (%s))' % (dsx, ' '.join(name_sx(i) for i, _ in pick)), N(meas=[]), k)
         if k == 'join':
